@@ -19,7 +19,7 @@ func init() {
 		ID: "C11",
 		Explanation: "Decided: (R1) the frame writer emits a 4-byte big-endian length of exactly the payload followed by the payload; the reader reads 4 bytes with the same byte order and then exactly that many bytes into the buffer it decodes; (R2) no value with internal read-ahead (bufio) wraps the connection unless it is stored in the connection object, and frames are read only by exact-length reads; " +
 			"(R3) every path through the frame reader re-arms exactly once, kills the connection actor, or is the clean-EOF exit, and a decoded frame is handed to HandleRemotingEnvelop exactly once before the re-arm; (R4) frames are written to the connection only under the connection's write lock (handshake: before publication); (R5) the four address strings, the system flag and the message keep their role from the sender's envelope through wire position, decode result and handler parameter to the rebuilt envelope, which is enqueued to the mailbox of the rebuilt receiver; " +
-			"(R6) envelope and handshake reader/writer signatures agree (C12.R1). (R6) the central creates a mailbox for an address only on the miss edge of a lookup of the same key made in the same critical section as the insertion: two first senders to a fresh address cannot end up with two mailboxes, two connections and two independently read streams; (R7) the cached connection is cleared only on an edge where that connection failed (write error, Closed()): dropping a healthy connection (e.g. after an encode failure) opens a second stream while the first still has a backlog, and later messages overtake earlier ones. (R8) handshake lock-step: every Send of the own handshake is on the dialer's branch or dominated by the success edge of Wait, so the dialer cannot send frames into the acceptor's unframed handshake read; (R10 = C14.R10) every send attempt writes the encoder's complete frame. (R11 = C12.R9) the pooled Reader/Writer every frame is decoded/encoded with starts clean — cursor, sticky error and byte order are reset between release and hand-out — so a junk frame on one connection cannot make the decoding of a later, healthy frame fail. NOT decided: exactly-once and order at run time for all burst sizes and TCP segmentations.",
+			"(R6) envelope and handshake reader/writer signatures agree (C12.R1). (R6) the central creates a mailbox for an address only on the miss edge of a lookup of the same key made in the same critical section as the insertion: two first senders to a fresh address cannot end up with two mailboxes, two connections and two independently read streams; (R7) the cached connection is cleared only on an edge where that connection failed (write error, Closed()): dropping a healthy connection (e.g. after an encode failure) opens a second stream while the first still has a backlog, and later messages overtake earlier ones. (R8) handshake lock-step: every Send of the own handshake is on the dialer's branch or dominated by the success edge of Wait, so the dialer cannot send frames into the acceptor's unframed handshake read; (R10 = C14.R10) every send attempt writes the encoder's complete frame. (R11 = C12.R9) the pooled Reader/Writer every frame is decoded/encoded with starts clean — cursor, sticky error and byte order are reset between release and hand-out — so a junk frame on one connection cannot make the decoding of a later, healthy frame fail. (R12) every deadline a handshake half arms in front of its read / write is cleared (directly or by a deferred call) on every path to its return: an absolute deadline left on the socket kills the frame reader in the middle of the connection's life, with frames already written by the peer still unread — lost without a report on a healthy link (F46). NOT decided: exactly-once and order at run time for all burst sizes and TCP segmentations.",
 		Rules: []Rule{
 			{ID: "C11.R1", Min: 4, Desc: "framing agreement", Fn: c11Framing},
 			{ID: "C11.R2", Min: 2, Desc: "no read-ahead loss; exact-length reads", Fn: c11ReadAhead},
@@ -30,6 +30,9 @@ func init() {
 			{ID: "C11.R7", Min: 1, Desc: "a healthy connection is never dropped", Fn: c11KeepHealthy},
 			{ID: "C11.R10", Min: 1, Desc: "every send attempt writes the complete frame (C14.R10): a retry runs on a new connection, a frame tail would be parsed as frames", Fn: c14WholeFrame},
 			{ID: "C11.R11", Min: 5, Desc: "pooled codec objects start clean: junk on one connection does not poison the decoding on a healthy one (C12.R9)", Fn: c12Pools},
+			{ID: "C11.R12", Min: 2, Desc: "a deadline armed for the handshake does not outlive the handshake", Fn: c11DeadlinesBoundTheHandshake},
+			{ID: "C11.R13", Min: 2, Desc: "what is delivered is what was decoded: both sides choose the payload format by the same test and the decoding side never succeeds without decoding (C12.R11)", Fn: codecChoice},
+			{ID: "C11.R14", Min: 3, Desc: "a reply reaches the ask it answers: fresh reply address per ask, used consistently (C04.R6)", Fn: c04Address},
 			{ID: "C11.R8", Min: 1, Desc: "handshake lock-step: the accepting side answers only after it has read the dialer's handshake", Fn: c11HandshakeOrder},
 			{ID: "C11.R9", Min: 2, Desc: "envelope and handshake signatures agree", Fn: c11Wire},
 		},
@@ -38,7 +41,7 @@ func init() {
 		ID: "C14",
 		Explanation: "Decided: (R1) which blocking primitives are synchronously reachable from Tell (effect analysis over the call graph): the remoting send path's dial, handshake, retry sleep, writes and wait are a KNOWN FINDING (Tell blocks while the peer is unreachable, contrary to the documented contract); any other blocking primitive is a violation; " +
 			"(R2) every failing exit of the send loop is reported (C03.R6) and an encode failure aborts the loop with the error; (R3) once a non-zero frame length was read the reader never re-arms without consuming exactly that many bytes — paths that do not consume kill the connection actor; (R4) the retry limit is clamped to >= 0, the retry loop exits on it, nothing reachable from a retry iteration writes the attempt counter, a stopped system aborts; " +
-			"(R5) a failed write / closed connection clears the cached connection before the retry, and non-EOF read errors kill the connection actor without re-arming; (R6) an undecodable frame re-arms the reader; (R7) because the clean-EOF exit leaves the old connection actor registered, the name under which a connection actor is spawned contains a per-socket component, so a re-dial to the same peer does not collide with it. (R8) the retry helper object, which carries the attempt counter and is reset whenever a send returns, is created fresh for every mailbox (the value stored into the mailbox's field is an allocation or a constructor result): the per-peer lock then protects it, and traffic to a healthy peer cannot reset the count of an unreachable one. (R4, addition) every return of the retry helper leaves the attempt counter reset (deferred reset registered on every path, or a reset on every path from an advance to a return); (R9 = C11.R3) the frame reader re-arms or terminates its connection on every path; (R10) the value handed to the connection's Write is the frame encoder's result on every attempt, never a re-slice or remainder. (R11) no error of the transport package is dropped implicitly (bare call statements over the syntax tree). (R12) sibling agreement: Handshake.Send and Handshake.Wait arm and clear the same number of deadlines, so the two directions of a connection are left in the same state. (R13) a connection that lost its reading side while the socket stays open (close handshake of a peer system restarted in-process, invalid frame length, supervision) makes a later write fail: the write deadline armed before the handshake write is never disarmed in the transport (or every data write arms its own), or the reader's death closes the socket (reader exits / the connection actor's termination handler) — otherwise later messages are neither delivered nor dead-lettered and no reconnect happens. (R14 = C12.R9) pooled codec objects start clean: the sticky error of a frame that failed to decode is not inherited by later frames. (R15 = C11.R1/R2) frames are read with exact-length reads straight from the connection — no buffering reader whose read-ahead a restart of the connection actor would discard. NOT decided: 'what it receives is a subsequence' under arbitrary cut points, duplicates after an ambiguous write error, recovery timing.",
+			"(R5) a failed write / closed connection clears the cached connection before the retry, and non-EOF read errors kill the connection actor without re-arming; (R6) an undecodable frame re-arms the reader; (R7) because the clean-EOF exit leaves the old connection actor registered, the name under which a connection actor is spawned contains a per-socket component, so a re-dial to the same peer does not collide with it. (R8) the retry helper object, which carries the attempt counter and is reset whenever a send returns, is created fresh for every mailbox (the value stored into the mailbox's field is an allocation or a constructor result): the per-peer lock then protects it, and traffic to a healthy peer cannot reset the count of an unreachable one. (R4, addition) every return of the retry helper leaves the attempt counter reset (deferred reset registered on every path, or a reset on every path from an advance to a return); (R9 = C11.R3) the frame reader re-arms or terminates its connection on every path; (R10) the value handed to the connection's Write is the frame encoder's result on every attempt, never a re-slice or remainder. (R11) no error of the transport package is dropped implicitly (bare call statements over the syntax tree). (R12) sibling agreement: Handshake.Send and Handshake.Wait arm and clear the same number of deadlines, so the two directions of a connection are left in the same state. (R13) a connection that lost its reading side while the socket stays open (close handshake of a peer system restarted in-process, invalid frame length, supervision) makes a later write fail: the write deadline armed before the handshake write is never disarmed in the transport (or every data write arms its own), or the reader's death closes the socket (reader exits / the connection actor's termination handler) — otherwise later messages are neither delivered nor dead-lettered and no reconnect happens. (R14 = C12.R9) pooled codec objects start clean: the sticky error of a frame that failed to decode is not inherited by later frames. (R16 = C11.R12) handshake deadlines are cleared before the handshake half returns. (R15 = C11.R1/R2) frames are read with exact-length reads straight from the connection — no buffering reader whose read-ahead a restart of the connection actor would discard. NOT decided: 'what it receives is a subsequence' under arbitrary cut points, duplicates after an ambiguous write error, recovery timing.",
 		Rules: []Rule{
 			{ID: "C14.R1", Min: 4, Desc: "Tell effect analysis (blocking primitives)", Fn: c14TellBlocks},
 			{ID: "C14.R2", Min: 3, Desc: "failure reported; encode failure aborts", Fn: c14Reported},
@@ -58,6 +61,7 @@ func init() {
 			{ID: "C14.R13", Min: 1, Desc: "a connection that lost its reader makes a later write fail (armed write deadline, or the reader's death closes the socket)", Fn: c14HalfDeadNoticed},
 			{ID: "C14.R14", Min: 5, Desc: "pooled codec objects start clean: a frame that failed to decode does not poison the decoding of later frames (C12.R9)", Fn: c12Pools},
 			{ID: "C14.R15", Min: 4, Desc: "framing agreement and exact-length reads straight from the connection (C11.R1/R2): nothing read ahead can be lost when the connection actor restarts", Fn: func(p *Program, r *Report) { c11Framing(p, r); c11ReadAhead(p, r) }},
+			{ID: "C14.R16", Min: 2, Desc: "a deadline armed for the handshake does not outlive the handshake (C11.R12): no reader dies on a healthy link with unread frames in the socket", Fn: c11DeadlinesBoundTheHandshake},
 			{ID: "C14.R8", Min: 1, Desc: "retry state is per mailbox, never shared between peers", Fn: c14OwnBackoff},
 		},
 	})
@@ -78,6 +82,7 @@ func init() {
 			{ID: "C15.R12", Min: 1, Desc: "remote operations on an aged connection: a connection that lost its reader makes a later write fail (C14.R13)", Fn: c14HalfDeadNoticed},
 			{ID: "C15.R13", Min: 5, Desc: "a registered reader never overwrites what it has decoded (C12.R13): a remote reply carries the same content as a local one", Fn: c12DecodedKept},
 			{ID: "C15.R14", Min: 1, Desc: "an undecodable frame does not end the reading of the connection: later remote operations from that peer still arrive (C14.R6)", Fn: c14DecodeContinues},
+			{ID: "C15.R15", Min: 2, Desc: "a reference to another address is never answered with the root's own mailbox (C03.R16): a remote Kill cannot kill the local system", Fn: c03RootMailboxOnlyForRoot},
 			{ID: "C15.R8", Min: 1, Desc: "an error carried by a message is reconstructed for every code other than the writer's no-error value", Fn: c15ErrorSentinel},
 			{ID: "C15.R5", Min: 2, Desc: "optional nested payloads are encodable without a codec", Fn: c15OptionalPayload},
 			{ID: "C15.R1", Min: 28, Desc: "wire-representable fields", Fn: c15Representable},
